@@ -209,7 +209,7 @@ func runC08(p *Program, r *Result) {
 			facts := rtb.FactsAt(c.Block())
 			_, short47 := findFact(facts, func(a Atom) bool {
 				k, isK := intConst(a.Y)
-				return a.Kind == "cmp" && a.Op == "<=" && isK && k == 47 && strings.Contains(a.X.String(), "Decode")
+				return a.Kind == "cmp" && a.Op == "<=" && isK && k == 47 && isDecodeCount(a.X)
 			})
 			_, isFooter := findFact(facts, func(a Atom) bool {
 				return a.Kind == "cmp" && a.Op == "==" && a.Y.S == specConst(r, "armor.Footer")
@@ -219,6 +219,50 @@ func runC08(p *Program, r *Result) {
 			}
 		}
 		r.Check(okShort, rd.String(), "short-line:footer", "", "after a short line the next line must be the footer", "a short body line is not required to be followed by exactly the footer line")
+		// and the other way round: a Read that accepts a line without looking for the footer knows
+		// that the line decoded to a full BytesPerLine (the decoded count, not the line length:
+		// padding makes a 64-column line short)
+		{
+			var dec ssa.CallInstruction
+			for _, c := range callsIn(rd) {
+				if strings.HasSuffix(calleeName(c.Common()), "base64.Encoding).Decode") {
+					dec = c
+				}
+			}
+			if dec == nil {
+				r.Unk(rd.String(), "short-line:only-last", "", "no base64 Decode call in the armor reader")
+			} else {
+				paths, okp := p.EnumPaths(dec.Block())
+				bad := ""
+				n := 0
+				if !okp {
+					bad = "too many paths"
+				}
+				for _, pa := range paths {
+					if pa.End != "return" {
+						continue
+					}
+					ret := pa.Last.(*ssa.Return)
+					if len(ret.Results) != 2 || !isNilConst(stripConv(pa.Resolve(ret.Results[1]))) {
+						continue
+					}
+					atoms := rtb.pathAtoms(pa)
+					if _, ok := findFact(atoms, func(a Atom) bool {
+						return a.Kind == "cmp" && a.Op == "==" && a.Y != nil && a.Y.S == specConst(r, "armor.Footer")
+					}); ok {
+						continue // the footer followed
+					}
+					n++
+					if _, ok := findFact(atoms, func(a Atom) bool {
+						k, isK := intConst(a.Y)
+						return a.Kind == "cmp" && isK && (a.Op == ">=" && k == 48 || a.Op == ">" && k == 47) && isDecodeCount(a.X)
+					}); !ok {
+						bad = "path " + pa.String() + " accepts a body line and carries on without the footer although the decoded count is not known to be a full line"
+					}
+				}
+				r.Check(bad == "" && n > 0, rd.String(), "short-line:only-last", r.pos(dec), itoa(n)+" carry-on path(s), each under decoded count >= BytesPerLine", "a short body line need not be the last one: "+bad)
+			}
+		}
 		// trailing data: EOF only under all-whitespace and below the bound
 		okTrail := false
 		nEOF := 0
@@ -416,4 +460,13 @@ func startedCut(p *Program, rd *ssa.Function, d ssa.CallInstruction) (int, bool)
 		}
 	}
 	return cuts, cuts > 0
+}
+
+// isDecodeCount: the byte count returned by (*base64.Encoding).Decode.
+func isDecodeCount(t *Term) bool {
+	if t == nil {
+		return false
+	}
+	s := t.String()
+	return strings.Contains(s, "base64.Encoding).Decode(") && strings.HasSuffix(s, ".0") && t.Op == "Ext"
 }
